@@ -249,7 +249,10 @@ def kinds(P, E, chk):
         sv = set()
         for b, c in calls:
             if c.get("fn") == "user_switch_codec":
-                sv.add(pp(_strip(c["a"][1])) if sk(c["a"][1]).get("k") == "Un" else _resolve_local(hnr, b, c["a"][1]))
+                if sk(c["a"][1]).get("k") == "Un":
+                    sv.add(pp(_strip(c["a"][1])))
+                else:
+                    sv |= _resolve_var(hnr, blocks, b, c["a"][1])
         stab[n] = sv
     numbers = sorted(n for n in ctab if len(ctab[n]) == 1 and not ctab[n] & ctab.get(0, set()) or stab[n])
     nsw = 0
@@ -259,6 +262,10 @@ def kinds(P, E, chk):
         if not special:
             continue
         nsw += 1
+        if not all(v.endswith("_ops") for v in c_ | s_) or not c_ or not s_:
+            chk.undecided(r5, cs, cs.line, "codec switch number %d" % n,
+                          "the codec chosen for this number is not a constant &..._ops on one side (client %s, server %s)" % (sorted(c_), sorted(s_)))
+            continue
         chk.site(r5, cs, cs.line, "codec switch number %d" % n, c_ == s_ and len(c_) == 1,
                  "client selects %s, server installs %s" % (sorted(c_), sorted(s_)))
     if nsw < 4:
@@ -279,6 +286,32 @@ def _strip(e):
     if e.get("k") == "Un" and e["op"] == "&":
         return sk(e["a"][0])
     return e
+
+
+def _resolve_var(f, blocks, b, e):
+    """Values a local pointer variable can hold at a use: its assignments inside the blocks reached under the fixed
+    discriminant (`enc = &base64_ops` in a switch arm, the shared tail uses `enc`).  NULL assignments are left out."""
+    e = sk(e)
+    if e.get("k") != "Ref":
+        return {pp(e)}
+    name = e["ref"]["name"]
+    out = set()
+    null = [False]
+    for bid in blocks:
+        for el in f.blocks[bid].elems:
+            for x in ir.walk(sk(el)):
+                if x.get("k") == "Bin" and x["op"] == "=" and pp(sk(x["a"][0])) == name:
+                    if cval(sk(x["a"][1])) == 0:
+                        null[0] = True
+                        continue
+                    out.add(pp(_strip(x["a"][1])))
+                elif x.get("k") == "Decl":
+                    for d in x["decls"]:
+                        if d["ref"]["name"] == name and d.get("init") is not None and cval(sk(d["init"])) != 0:
+                            out.add(pp(_strip(d["init"])))
+    if not out and null[0]:
+        return set()            # only NULL reaches here: the use sits behind the variable's own NULL test
+    return out or {name}
 
 
 def _resolve_local(f, b, e):
